@@ -62,6 +62,7 @@ def check_formulas(ctx):
                     'BimolecularPropensity': ['k', 's1', 's2']}.get(cls, list(c01.KEYS[cls]))
             if all(r in roles for r in need):
                 c01.check_formulas(sub, cls, roles)
+    c01.check_c_arithmetic(sub)
     n = 0
     for rule, key, ok, where, what, detail in sub.got:
         if rule == 'R1.1-formula' and 'volume' in key:
